@@ -161,7 +161,7 @@ fn exec_kind_(w: &mut WorkerHandle, kind: &ReplayKind, render: bool, budget_ms: 
                     if let Some((k, _)) = agg.known_hits.iter().next() {
                         Exec::Known(
                             k.clone(),
-                            CaseReport { failure: None, finding: Some(k.clone()), labels: vec![], nontrivial: false, dup_of_enum: false, hash: 0, excluded_known: 0, rendering: agg.samples.first().cloned() },
+                            CaseReport { failure: None, finding: Some(k.clone()), labels: vec![], nontrivial: false, dup_of_enum: false, hash: 0, excluded_known: 0, inner_evaluations: 0, rendering: agg.samples.first().cloned() },
                         )
                     } else {
                         Exec::Pass(CaseReport {
@@ -172,6 +172,7 @@ fn exec_kind_(w: &mut WorkerHandle, kind: &ReplayKind, render: bool, budget_ms: 
                             dup_of_enum: false,
                             hash: 0,
                             excluded_known: 0,
+                            inner_evaluations: 0,
                             rendering: agg.samples.first().cloned(),
                         })
                     }
@@ -193,6 +194,7 @@ pub struct LaneResult {
     pub labels: BTreeMap<String, u64>,
     pub known_hits: BTreeMap<String, u64>,
     pub excluded_known: u64,
+    pub inner_evaluations: u64,
     pub samples: Vec<(usize, String)>,
     pub violation: Option<Violation>,
     pub error: Option<String>,
@@ -307,6 +309,7 @@ fn account(r: &mut LaneResult, rep: &CaseReport, tape_len: usize) {
         *r.labels.entry(l.clone()).or_default() += 1;
     }
     r.excluded_known += rep.excluded_known as u64;
+    r.inner_evaluations += rep.inner_evaluations as u64;
     if rep.nontrivial && !rep.dup_of_enum {
         r.nontrivial.insert(rep.hash);
     }
@@ -434,9 +437,12 @@ pub struct EnumResult {
     pub completed: bool,
 }
 
-const BATCH: u64 = 2048;
+const MAX_BATCH: u64 = 2048;
 
 fn run_space(id: &str, tier: Tier, space: usize, name: &str, size: u64, cpu_ms: u32) -> EnumResult {
+    // small spaces of expensive cases must still spread over all lanes
+    #[allow(non_snake_case)]
+    let BATCH: u64 = (size / (LANES as u64 * 8)).clamp(1, MAX_BATCH);
     let nbatches = size.div_ceil(BATCH);
     let next = Arc::new(AtomicU64::new(0));
     let stop_at = Arc::new(AtomicU64::new(u64::MAX));
@@ -692,6 +698,7 @@ pub fn run_main(id: &str, tier: Tier) -> i32 {
     }
 
     // 2. bounded-exhaustive enumerations
+    let mut inner = 0u64;
     let mut all_exhaustive = true;
     let mut any_enum = false;
     if violation.is_none() && error.is_none() {
@@ -702,6 +709,7 @@ pub fn run_main(id: &str, tier: Tier) -> i32 {
             ev.evaluations += r.agg.evaluated;
             ev.distinct_nontrivial += r.agg.nontrivial;
             ev.excluded_known += r.agg.excluded_known;
+            inner += r.agg.inner_evaluations;
             for (k, v) in &r.agg.labels {
                 *ev.labels.entry(k.clone()).or_default() += v;
             }
@@ -754,6 +762,7 @@ pub fn run_main(id: &str, tier: Tier) -> i32 {
                     shrink += r.shrink_evals;
                     distinct.extend(r.nontrivial.iter());
                     ev.excluded_known += r.excluded_known;
+                    inner += r.inner_evaluations;
                     for (k, v) in &r.labels {
                         *ev.labels.entry(k.clone()).or_default() += v;
                     }
@@ -794,6 +803,10 @@ pub fn run_main(id: &str, tier: Tier) -> i32 {
     ev.exhaustive_all = any_enum && all_exhaustive && !random_ran;
 
     // 4. outcome
+    if inner > 0 {
+        ev.extra.insert("inner_evaluations".into(), json!(inner));
+        ev.extra.insert("inner_evaluations_note".into(), json!("oracle evaluations performed inside cases (e.g. every fault applied to one generated message); not included in 'evaluations'"));
+    }
     ev.wall_s = t0.elapsed().as_secs_f64();
     ev.violations = violation.is_some() as u64;
     let mut code = 0;
